@@ -18,7 +18,7 @@ func init() {
 			"C05.4 Server.table, Server.transactions and the per-node liveness fields are only touched with Server.mu held (writes under the write lock); " +
 			"C05.5 reported numbers are derived from the entries on every call (Stats().Nodes/GoodNodes, NumNodes(), Nodes()): no cached counter; the iteration helpers visit every entry unless the callback asks to stop.",
 		NotDecided: "that bucketIndex computes the shared-prefix length (C18.4 decides its shape only), equality of the two indexes after arbitrary histories (follows by induction from C05.1+C05.2), time-dependent goodness.",
-		Assume: []string{"Go map semantics; bucket.nodes keys are *node pointers created once per admitted contact"},
+		Assume:     []string{"Go map semantics; bucket.nodes keys are *node pointers created once per admitted contact"},
 		Rules: []*Rule{
 			{ID: "C05.1", Doc: "single writer of the table indexes", Floor: 8, Run: c05r1},
 			{ID: "C05.2", Doc: "indexes move together", Floor: 5, Run: c05r2},
@@ -483,6 +483,8 @@ func c05r5(w *World, rr *RuleRun) {
 			}
 		}
 	}
+	// the good-node count applies IsGood, whose meaning is fixed here
+	w.checkIsGoodSummary(rr)
 }
 
 // falseOnlyWhenCallbackFalse: fn(…, f) iterates and reports false only if f returned false. Handles the
